@@ -16,7 +16,7 @@ REPO = os.environ.get('VERIF_REPO', '/repo')
 TOOLCHAIN = '1.98.1-x86_64-unknown-linux-gnu'
 CACHE = os.path.join(VERIF, '.cache')
 
-UNITS = ['base', 'name', 'compress', 'cstring', 'typed', 'overrides', 'hand_types', 'macros', 'codes', 'records', 'header', 'packet', 'fmt', 'owned']
+UNITS = ['base', 'name', 'compress', 'cstring', 'typed', 'overrides', 'hand_types', 'macros', 'codes', 'records', 'header', 'packet', 'fmt', 'owned', 'style']
 
 def sh(cmd, **kw):
     return subprocess.run(cmd, capture_output=True, text=True, **kw)
@@ -72,7 +72,8 @@ class Diag:
 def run(crate, modules=(), functions=(), extra=(), rlimit=None, timeout=1800, log_dir=None):
     rlib, deps = bitflags_rlib()
     cmd = ['verus', '--crate-type=lib', 'src/lib.rs', '--extern', 'bitflags=' + rlib, '-L', deps,
-           '--multiple-errors', '100', '--output-json', '--error-format=json', '--time-expanded', '--triggers-mode', 'silent']
+           '--multiple-errors', '100', '--output-json', '--error-format=json', '--time-expanded', '--triggers-mode', 'silent',
+           '-V', 'spinoff-all']   # every function in its own z3 instance: a proof does not depend on what was verified before it
     for m in modules:
         cmd += ['--verify-module', m]
     for f in functions:
